@@ -117,6 +117,16 @@ def check(rep, an, tier):
         need = {"A", "B", "W"} | ({"K"} if cfg["K"] else set()) | ({"baseline"} if cfg["baseline"] else set())
         F.flow_objective(rep, res, entry, need, xprobs, label="X objective")
         F.flow_objective(rep, res, entry, need, pprobs, label="P objective")
+        # the X step couples ALL samples in one objective: the weights must enter it as given (degree 1 in W) — a per-sample
+        # normalisation of W (harmless for row-separable fits) changes the relative weight of the samples here
+        for ev in res.events("cvx_entry"):
+            for o_ in ev.d["operands"]:
+                if "W" in o_.flat().data and o_.tag("deg") is not None:
+                    dW = o_.tag("deg").get("W")
+                    rep.check("R-QTY", "sample weights enter the coupled objective as given (degree 1 in W)", dW == 1, where=ev.loc,
+                              construct=ev.text()[:80], entry=entry, config=res.config,
+                              msg=f"the weight operand is homogeneous of degree {dW} in W: the weights were normalised per sample, which changes "
+                                  f"the relative weighting of samples in the X sub-problem that couples them")
         # ---- alternation order inside the loop
         alternation(rep, res, entry, xprobs, pprobs, xvars, pvars, cfg)
         # ---- returned fit
